@@ -1,6 +1,7 @@
 """C06 - simplification preserves the meaning of the expression."""
 import gen
 import impl
+import pipeline as P
 import treeutil as U
 from core import BaseProp, Verdict
 from proto import T
@@ -9,7 +10,10 @@ RULE = ('random trees (depth <= 4, arity 2-5) over atoms that include keys diffe
         'exception flags, and WITH pairs next to their parts; Spec (in Lean, on the implementation\'s result): same truth table over '
         'all assignments of the input\'s atoms, atoms of the result are atoms of the input; correspondence: result structure up to '
         'operand order with the model. Exhaustive: all trees with <= 4 (quick) / <= 5 (thorough) leaves over {a, A, a[exc]} plus a '
-        'WITH pair. non-trivial = not a single atom; distinct by tree')
+        'WITH pair. Entry point used by comparisons: texts over tables with aliases, Licensing._parse_and_simplify(text, **flags) on a '
+        'shared instance under every flag combination given explicitly, in random order, twice: the result has the truth table and no '
+        'license beyond those of parse(text, **flags) on a fresh instance (or fails the same way). non-trivial = not a single atom; '
+        'distinct by tree')
 ASSUMPTIONS = ['expressions are NOT-free (all a license expression can be)']
 
 KEYS = ['a', 'A', 'b', 'mit', 'MIT', 'gpl 2.0', 'c']
@@ -40,6 +44,38 @@ class Prop(BaseProp):
             return Verdict('diverge', case, 'simplify (structure up to operand order)', impl=rt, model=ms)
         return Verdict('ok', case, impl=rt, nontrivial=tree[0] in ('and', 'or'), tags=['atoms=%d' % len(atoms)])
 
+    def case_text(self, rng):
+        table = gen.gen_table(rng, allow_op=False, single_word=rng.random() < 0.7)
+        table = [[k, [a for a in al if '(' not in a and ')' not in a and not set(a.lower().split()) & {'and', 'or', 'with'}], ex] for k, al, ex in table]
+        names = [n for k, al, ex in table for n in [k] + [a for a in al if a.strip()]] or ['zz']
+        keys = [rng.choice(names) if rng.random() < 0.8 else 'u%d' % rng.randint(0, 2) for _ in range(rng.randint(2, 4))]
+        t = gen.gen_tree(rng, keys, depth=rng.randint(1, 3), maxar=3, with_p=0.15, flags=False)
+        order = [dict(f) for f in impl._FLAGS]
+        rng.shuffle(order)
+        return {'table': table, 'text': gen.tree_text(rng, t), 'order': order + order[:3]}
+
+    def eval_text(self, drv, case):
+        table, text = case['table'], case['text']
+        if not impl.lower_is_charwise(text):
+            return Verdict('skip', case)
+        lic = P.licensing(table)
+        for kw in case['order']:
+            want = impl.outcome(lambda: P.fresh_licensing(table).parse(text, **kw))
+            got = impl.outcome(lambda: lic._parse_and_simplify(text, **kw))
+            if not P.is_ok(want) or not P.is_ok(got):
+                if P.err_class(want) != P.err_class(got):
+                    return Verdict('spec', case, '_parse_and_simplify(%r) fails differently from parse' % (kw,), impl=P.err_class(got), model=P.err_class(want))
+                continue
+            wt, gt = impl.tree_c(want[1]), impl.tree_c(got[1])
+            atoms = gen.atoms_of(wt)[:10]
+            extra = [a for a in gen.atoms_of(gt) if a not in gen.atoms_of(wt)]
+            if extra:
+                return Verdict('spec', case, '_parse_and_simplify(%r): result mentions a license absent from the parsed input' % (kw,), impl=gt, model=wt)
+            ti, tr = drv.call_many([(T('ttable'), wt, atoms), (T('ttable'), gt, atoms)])
+            if ti != tr:
+                return Verdict('spec', case, '_parse_and_simplify(%r): truth table differs from the parsed input' % (kw,), impl=gt, model=wt)
+        return Verdict('ok', case, nontrivial=True, tags=['stream=entry-point'])
+
     def exhaustive(self, drv, index, nworkers, maxleaves):
         atoms = [[T('sym'), 'a', False], [T('sym'), 'A', False], [T('sym'), 'a', True], [T('with'), 'a', False, 'A', False]]
         k = 0
@@ -57,9 +93,11 @@ class Prop(BaseProp):
         n = self.budget(tier, 6000, 80000, nworkers, scale)
         for _ in range(n):
             self.record(self.eval_case(drv, self.case_random(rng)))
+        for _ in range(max(1, n // 10)):
+            self.record(self.eval_text(drv, self.case_text(rng)))
         self.exhaustive(drv, index, nworkers, 5 if tier == 'thorough' else 4)
         return self.res
 
     def replay(self, drv, data):
         v = data.get('first') or (data.get('diverging') or [None])[0]
-        yield self.eval_case(drv, v['case'])
+        yield self.eval_text(drv, v['case']) if 'text' in v['case'] else self.eval_case(drv, v['case'])
